@@ -372,7 +372,7 @@ theorem world_spawn_get (ok : StoreOk w) (hemp : (absStore w).HasEmpty) (h : spa
   · intro k'
     rw [he]
     dsimp only
-    rw [SlotMap.get_set hg1, SlotMap.get_insertWith ok.ents hins]
+    rw [SlotMap.get_set_refine hg1, SlotMap.get_insertWith ok.ents hins]
     by_cases hkk : k' = k <;> simp [hkk]
   · unfold World.compsOf; rw [heq.comps hk]; exact h1
   · intro c; unfold World.getCell; rw [heq.get hk]; exact h2 c
@@ -566,7 +566,7 @@ end ledger
     call ends) -/
 theorem moveEntity_handlers_keys_any (src : Loc) (dst : Nat) (new : List (Nat × Cell)) (w : World) (k : Key) :
     ((moveEntity src dst new).run.run w).2.handlers.contains k = w.handlers.contains k :=
-  (moveEntity_hk w.handlers src dst new).run w (fun _ => rfl) k
+  (moveEntity_hk_refine w.handlers src dst new).run w (fun _ => rfl) k
 
 theorem moveEntity_handlers_keys {w w' : World} {src : Loc} {dst : Nat} {new : List (Nat × Cell)}
     (h : (moveEntity src dst new).run.run w = (.ok (), w')) (k : Key) :
@@ -577,18 +577,18 @@ theorem moveEntity_handlers_keys {w w' : World} {src : Loc} {dst : Nat} {new : L
 theorem removeEntity_handlers_keys {w w' : World} {loc : Loc}
     (h : (removeEntity loc).run.run w = (.ok (), w')) (k : Key) :
     w'.handlers.contains k = w.handlers.contains k := by
-  have := (removeEntity_hk w.handlers loc).run w (fun _ => rfl) k
+  have := (removeEntity_hk_refine w.handlers loc).run w (fun _ => rfl) k
   rw [h] at this; exact this
 
 theorem archSpawn_handlers_keys {w w' : World} {id : Key} {loc : Loc}
     (h : (archSpawn id).run.run w = (.ok loc, w')) (k : Key) :
     w'.handlers.contains k = w.handlers.contains k := by
-  have := (archSpawn_hk w.handlers id).run w (fun _ => rfl) k
+  have := (archSpawn_hk_refine w.handlers id).run w (fun _ => rfl) k
   rw [h] at this; exact this
 
 theorem spawnAll_handlers_keys {w w' : World} (h : spawnAll.run.run w = (.ok (), w')) (k : Key) :
     w'.handlers.contains k = w.handlers.contains k := by
-  have := (spawnAll_hk w.handlers).run w (fun _ => rfl) k
+  have := (spawnAll_hk_refine w.handlers).run w (fun _ => rfl) k
   rw [h] at this; exact this
 
 
